@@ -2,6 +2,7 @@
 //! @encodes http_udp_codec::Decoder::process_client_length
 //! @encodes http_udp_codec::Decoder::process_client_fixed_header
 //! @cut K1
+//! @include C06/http_udp_codec.rs
 //! @assume two consecutive transitions on a 4-byte and a 37-byte chunk with symbolic contents; the remaining transitions are discharged one by one in kani/C06 under the representation invariant this harness shows to be established
 use super::*;
 use crate::verif_env::{drop_bytes_noop, drop_bytesmut_noop, fmt_format_stub, sym_static};
